@@ -278,3 +278,142 @@ Qed.
 Theorem decode_sound : forall b t, utf8_decode b = Some t ->
   utf8_encode t = b /\ forallb is_scalar t = true.
 Proof. intros b t. apply (decode_sound_n (length b)). lia. Qed.
+
+(* ---- single-byte codecs that keep \n and \r -------------------------------------------------- *)
+(* a table is line-break compatible when a byte decodes to \n (\r) exactly when it is \n (\r) *)
+Definition table_ok (tbl : sb_table) : bool :=
+  (length tbl =? 256)%nat &&
+  forallb (fun b => match sb_decode1 tbl b with
+                    | Some c => Bool.eqb (c =? LF) (b =? LF) && Bool.eqb (c =? CR) (b =? CR)
+                    | None => true
+                    end) (map N.of_nat (seq 0 256)).
+
+Lemma table_ok_spec tbl : table_ok tbl = true -> forall b c, sb_decode1 tbl b = Some c ->
+  (c =? LF) = (b =? LF) /\ (c =? CR) = (b =? CR).
+Proof.
+  unfold table_ok. intros H b c D. apply andb_true_iff in H as [L F]. apply Nat.eqb_eq in L.
+  assert (R : (N.to_nat b < 256)%nat).
+  { destruct (Nat.lt_ge_cases (N.to_nat b) 256) as [Q|Q]; [exact Q|].
+    unfold sb_decode1 in D. rewrite nth_overflow in D by lia. discriminate. }
+  rewrite forallb_forall in F. specialize (F b).
+  assert (I : In b (map N.of_nat (seq 0 256))).
+  { apply in_map_iff. exists (N.to_nat b). split; [apply N2Nat.id|]. apply in_seq. lia. }
+  specialize (F I). rewrite D in F. apply andb_true_iff in F as [F1 F2].
+  apply Bool.eqb_prop in F1. apply Bool.eqb_prop in F2. split; assumption.
+Qed.
+
+Section Table.
+  Variable tbl : sb_table.
+  Hypothesis OK : table_ok tbl = true.
+
+  Lemma sb_cons b r t : sb_decode tbl (b :: r) = Some t ->
+    exists c t', t = c :: t' /\ sb_decode1 tbl b = Some c /\ sb_decode tbl r = Some t'.
+  Proof.
+    cbn [sb_decode]. destruct (sb_decode1 tbl b) as [c|]; [|discriminate].
+    destruct (sb_decode tbl r) as [t'|]; [|discriminate]. intros E. inversion E. eauto.
+  Qed.
+
+  Lemma sb_nl b c : sb_decode1 tbl b = Some c -> is_nl_byte c = is_nl_byte b.
+  Proof. intros D. destruct (table_ok_spec tbl OK b c D) as [A B]. unfold is_nl_byte. fold LF CR. rewrite A, B. reflexivity. Qed.
+
+  Lemma sb_all_cons_head x c L L' : sb_decode1 tbl x = Some c -> sb_decode_all tbl L = Some L' ->
+    sb_decode_all tbl (cons_head x L) = Some (cons_head c L').
+  Proof.
+    intros D A. destruct L as [|l r]; cbn [cons_head sb_decode_all sb_decode] in *.
+    - inversion A. rewrite D. reflexivity.
+    - rewrite D. destruct (sb_decode tbl l) as [tl|]; [|discriminate].
+      destruct (sb_decode_all tbl r) as [tr|]; [|discriminate]. inversion A. reflexivity.
+  Qed.
+
+  Lemma sb_starts_lf b t : sb_decode tbl b = Some t -> starts_lf t = starts_lf b.
+  Proof.
+    destruct b as [|x b]; cbn [sb_decode]; intros D.
+    - inversion D. reflexivity.
+    - destruct (sb_cons _ _ _ D) as [c [t' [-> [D1 _]]]]. cbn [starts_lf].
+      apply (table_ok_spec tbl OK x c D1).
+  Qed.
+
+  (* decoding the lines of the bytes = the lines of the decoded text *)
+  Lemma sb_splitlines : forall b t, sb_decode tbl b = Some t ->
+    sb_decode_all tbl (splitlines is_nl_byte b) = Some (splitlines is_nl_byte t).
+  Proof.
+    intros b. pattern b. apply (split_ind is_nl_byte); clear b.
+    - intros t D. inversion D. reflexivity.
+    - intros x b B IH t D. destruct (sb_cons _ _ _ D) as [c [t' [-> [D1 D2]]]].
+      rewrite !sl_nobrk by (try assumption; rewrite (sb_nl x c D1); assumption).
+      apply sb_all_cons_head; [exact D1|apply IH; exact D2].
+    - intros x b B E IH t D. destruct (sb_cons _ _ _ D) as [c [t' [-> [D1 D2]]]].
+      destruct (table_ok_spec tbl OK x c D1) as [_ Ec].
+      rewrite !sl_brk by (try assumption; try (rewrite Ec; assumption); rewrite (sb_nl x c D1); assumption).
+      cbn [sb_decode_all sb_decode]. rewrite (IH t' D2). reflexivity.
+    - intros b B IH t D. destruct (sb_cons _ _ _ D) as [c [t1 [-> [D1 D2]]]].
+      destruct (sb_cons _ _ _ D2) as [d [t2 [-> [D3 D4]]]].
+      destruct (table_ok_spec tbl OK CR c D1) as [_ Ec]. change (CR =? CR) with true in Ec. apply N.eqb_eq in Ec. subst c.
+      destruct (table_ok_spec tbl OK LF d D3) as [Ed _]. change (LF =? LF) with true in Ed. apply N.eqb_eq in Ed. subst d.
+      rewrite !sl_crlf by reflexivity. cbn [sb_decode_all sb_decode]. rewrite (IH t2 D4). reflexivity.
+    - intros b B E IH t D. destruct (sb_cons _ _ _ D) as [c [t' [-> [D1 D2]]]].
+      destruct (table_ok_spec tbl OK CR c D1) as [_ Ec]. change (CR =? CR) with true in Ec. apply N.eqb_eq in Ec. subst c.
+      rewrite !sl_cr by (try reflexivity; try assumption; rewrite (sb_starts_lf b t' D2); assumption).
+      cbn [sb_decode_all sb_decode]. rewrite (IH t' D2). reflexivity.
+  Qed.
+
+  Lemma sb_ends_lf : forall b t, sb_decode tbl b = Some t -> ends_lf t = ends_lf b.
+  Proof.
+    induction b as [|x b IH]; intros t D.
+    - inversion D. reflexivity.
+    - destruct (sb_cons _ _ _ D) as [c [t' [-> [D1 D2]]]]. destruct b as [|y b].
+      + cbn [sb_decode] in D2. inversion D2. unfold ends_lf. cbn [last]. apply (table_ok_spec tbl OK x c D1).
+      + destruct (sb_cons _ _ _ D2) as [d [t2 [-> _]]].
+        rewrite !ends_lf_cons by discriminate. apply IH. exact D2.
+  Qed.
+
+  Lemma sb_all_app L1 L2 T1 T2 : sb_decode_all tbl L1 = Some T1 -> sb_decode_all tbl L2 = Some T2 ->
+    sb_decode_all tbl (L1 ++ L2) = Some (T1 ++ T2).
+  Proof.
+    revert T1. induction L1 as [|l r IH]; intros T1 A B.
+    - inversion A. exact B.
+    - cbn [app sb_decode_all] in *. destruct (sb_decode tbl l) as [tl|]; [|discriminate].
+      destruct (sb_decode_all tbl r) as [tr|] eqn:R; [|discriminate]. inversion A; subst.
+      rewrite (IH tr eq_refl B). reflexivity.
+  Qed.
+
+  Lemma sb_all_rev : forall L T, sb_decode_all tbl L = Some T -> sb_decode_all tbl (rev L) = Some (rev T).
+  Proof.
+    induction L as [|l r IH]; intros T A.
+    - inversion A. reflexivity.
+    - cbn [sb_decode_all] in A. destruct (sb_decode tbl l) as [tl|] eqn:Dl; [|discriminate].
+      destruct (sb_decode_all tbl r) as [tr|] eqn:R; [|discriminate]. inversion A; subst.
+      cbn [rev]. apply sb_all_app; [apply IH; reflexivity|]. cbn [sb_decode_all]. rewrite Dl. reflexivity.
+  Qed.
+
+  Lemma sb_ril_tail b t : sb_decode tbl b = Some t -> sb_decode_all tbl (ril_tail b) = Some (ril_tail t).
+  Proof.
+    intros D. unfold ril_tail.
+    destruct b as [|x b].
+    - inversion D. reflexivity.
+    - destruct (sb_cons _ _ _ D) as [c [t' [E _]]]. rewrite E. cbn [is_nil]. rewrite <- E.
+      rewrite (sb_ends_lf _ _ D).
+      apply sb_all_app.
+      + destruct (ends_lf (x :: b)); reflexivity.
+      + apply sb_all_rev. apply sb_splitlines. exact D.
+  Qed.
+
+  Lemma sb_firstn : forall p b t, sb_decode tbl b = Some t -> sb_decode tbl (firstn p b) = Some (firstn p t).
+  Proof.
+    induction p as [|p IH]; intros b t D; [reflexivity|].
+    destruct b as [|x b]; [inversion D; reflexivity|].
+    destruct (sb_cons _ _ _ D) as [c [t' [-> [D1 D2]]]]. cbn [firstn sb_decode]. rewrite D1, (IH b t' D2). reflexivity.
+  Qed.
+
+  (* text-mode file in a line-break compatible single-byte encoding: the lines of the text, last first *)
+  Theorem reverse_table_all : forall c t bs, (1 <= bs)%nat -> sb_decode tbl c = Some t ->
+    reverse_iter_lines (TextTable tbl) c bs (length c) = Ok (ril_tail t).
+  Proof.
+    intros c t bs Hbs D. unfold reverse_iter_lines. rewrite reverse_bytes_all by assumption.
+    rewrite firstn_all. rewrite (sb_ril_tail c t D). reflexivity.
+  Qed.
+
+  Theorem reverse_table_spec : forall c t bs, (1 <= bs)%nat -> sb_decode tbl c = Some t -> no_lone_cr t = true ->
+    reverse_iter_lines (TextTable tbl) c bs (length c) = Ok (reverse_lines_spec t).
+  Proof. intros. rewrite (reverse_table_all c t) by assumption. rewrite ril_tail_spec by assumption. reflexivity. Qed.
+End Table.
